@@ -295,10 +295,17 @@ def solver_flags(solver):
     return []
 
 
-def cbmc_cmd(h, gb, extra=()):
-    cmd = ["cbmc", gb, "--json-ui", "--unwind", str(h.unwind)] + STD_FLAGS + solver_flags(h.solver)
+PASS2_OFF = ["undefined-shift", "signed-overflow"]   # plus: --pointer-overflow-check is not passed
+
+
+def cbmc_cmd(h, gb, extra=(), pass2=False):
+    """pass2: the UB-class checks whose failure makes CBMC 6 leave every later obligation UNKNOWN (it asserts-then-assumes
+    them: paths through the UB are cut) are switched off, so that all remaining obligations are decided on ALL paths with the
+    machine semantics (two's complement, flat offsets)."""
+    std = [f for f in STD_FLAGS if not (pass2 and f == "--pointer-overflow-check")]
+    cmd = ["cbmc", gb, "--json-ui", "--unwind", str(h.unwind)] + std + solver_flags(h.solver)
     cmd += ["--malloc-may-fail", "--malloc-fail-null"] if h.malloc_may_fail else ["--no-malloc-may-fail"]
-    for c in h.no_checks:
+    for c in list(h.no_checks) + ([c for c in PASS2_OFF if c not in h.no_checks] if pass2 else []):
         cmd.append("--no-%s-check" % c)
     cmd += h.flags + list(extra)
     return cmd
@@ -328,19 +335,50 @@ def prop_class(r):
 
 
 def run_harness(ctx, h):
+    """pass 1 with every check; if the only effect of failing UB-class checks is that later obligations stay UNKNOWN, a second
+    pass without those checks decides them (see cbmc_cmd)."""
+    r1 = _run_harness(ctx, h, pass2=False)
+    if r1.status != "violation" or not getattr(r1, "unknown_n", 0):
+        return r1
+    if any(it["description"].startswith("VF:") for it in r1.failed):
+        return r1            # a functional assertion failed: goes to replay as it is
+    r2 = _run_harness(ctx, h, pass2=True)
+    r2.wall += r1.wall
+    r2.solver_s += r1.solver_s
+    r2.rss_mb = max(r1.rss_mb, r2.rss_mb)
+    r2.props_total += r1.props_total
+    if r2.status in ("inconclusive", "error", "vacuous", "bound"):
+        r2.note = "second pass (UB-class checks off): " + r2.note
+        return r2
+    p2 = set(it["property"] for it in r2.failed)
+    h._pass2_props = p2
+    for it in r1.failed:      # pass-1 failures stay in the inventory (baseline / UB-NEW triage)
+        if it["property"] not in p2:
+            r2.failed.append(it)
+    r2.status = "violation"
+    r2.note = ("two passes: %d obligation(s) were left UNKNOWN behind failing UB-class checks; second pass without %s decided all of them (%d proved). "
+               % (r1.unknown_n, "/".join(PASS2_OFF), r2.props_ok)) + r2.note
+    return r2
+
+
+def _run_harness(ctx, h, pass2=False):
     res = HResult(h=h)
     outdir = ctx.scratch.sub(h.name)
     t0 = time.time()
-    try:
-        if h.gen:
-            h.gen(ctx, outdir)
-    except Exception as ex:
-        res.status, res.note = "error", "generation failed: %s" % ex
-        return res
-    gb, err = compile_goto(ctx, h, outdir)
-    if not gb:
-        res.status, res.note = "error", err
-        return res
+    gbpath = os.path.join(outdir, h.name + ".gb")
+    if pass2 and os.path.exists(gbpath):
+        gb = gbpath            # same goto binary as pass 1
+    else:
+        try:
+            if h.gen:
+                h.gen(ctx, outdir)
+        except Exception as ex:
+            res.status, res.note = "error", "generation failed: %s" % ex
+            return res
+        gb, err = compile_goto(ctx, h, outdir)
+        if not gb:
+            res.status, res.note = "error", err
+            return res
     extra = []
     if h.unwind_funcs:
         rc0, out0, _, _, _ = sh(["cbmc", gb, "--show-loops", "--json-ui"], timeout=120)
@@ -360,7 +398,7 @@ def run_harness(ctx, h):
         if us:
             extra = ["--unwindset", ",".join(us)]
         h._unwindset = extra
-    cmd = cbmc_cmd(h, gb, extra)
+    cmd = cbmc_cmd(h, gb, extra, pass2=pass2)
     res.cmd = " ".join(cmd)
     rc, out, errt, wall, rss = sh(cmd, timeout=h.timeout, mem_gb=h.mem_gb)
     res.wall = time.time() - t0
@@ -459,7 +497,7 @@ def get_trace_values(ctx, h, prop_id):
     when the natively compiled harness fails on it."""
     outdir = ctx.scratch.sub(h.name)
     gb = os.path.join(outdir, h.name + ".gb")
-    base = cbmc_cmd(h, gb, getattr(h, "_unwindset", []) + ["--trace", "--property", prop_id])
+    base = cbmc_cmd(h, gb, getattr(h, "_unwindset", []) + ["--trace", "--property", prop_id], pass2=prop_id in getattr(h, "_pass2_props", ()))
     for cmd in ([c for c in base if c != "--slice-formula"], base):
         rc, out, err, wall, _ = sh(cmd, timeout=max(h.timeout, 600), mem_gb=h.mem_gb)
         results, status, msgs = parse_cbmc_json(out)
